@@ -219,7 +219,7 @@ func runWhitelists(c *Ctx, p *wlPatch) error {
 	}
 	c.Out.Emit(&lib.Case{Group: group, Class: p.class, Nontrivial: len(p.newC.Files) >= 2 && len(p.wls) >= 2,
 		Input: p.input, Obs: map[string]interface{}{"runs": obsRuns}, Oracle: oracle, Finding: finding,
-		Coq: fmt.Sprintf("($ID%%N, %s, %s, %s, %s, %s)", lib.CoqContainer(p.oldC, d), lib.CoqContainer(p.newC, d),
+		Coq: fmt.Sprintf("($ID%%N, %s, %s, %s, %s, %s, %s)", lib.CoqBool(p.claims), lib.CoqContainer(p.oldC, d), lib.CoqContainer(p.newC, d),
 			coqRleList(oldContents(p.oldC, p.old)), lib.CoqMsgs(p.msgs), lib.CoqList(rs))})
 	return nil
 }
